@@ -129,10 +129,13 @@ func NewPocketCoreApp(genState GenesisState, keybase keys.Keybase, tmClient clie
 		cmn.Exit(err.Error())
 	}
 	ctx := sdk.NewContext(app.Store(), abci.Header{}, false, app.Logger()).WithBlockStore(app.BlockStore())
-	if upgrade := app.govKeeper.GetUpgrade(ctx); upgrade.Height != 0 {
+	upgrade := app.govKeeper.GetUpgrade(ctx)
+	if upgrade.Height != 0 {
 		codec.UpgradeHeight = upgrade.Height
 		codec.OldUpgradeHeight = upgrade.OldUpgradeHeight
-		codec.UpgradeFeatureMap = codec.SliceToExistingMap(upgrade.GetFeatures(), codec.UpgradeFeatureMap)
 	}
+	// the feature schedule is restored even when no version upgrade was ever stored (Height == 0):
+	// a feature-only upgrade keeps the stored Height, and running nodes have these features active
+	codec.UpgradeFeatureMap = codec.SliceToExistingMap(upgrade.GetFeatures(), codec.UpgradeFeatureMap)
 	return app
 }
